@@ -84,6 +84,12 @@ def corpus():
     c['A11_half_pdu'] = dict(role='acceptor', steps=[('peer', [rq[:40]]), ('fin',)])
     c['A12_rq_echo_rel_one_turn'] = dict(role='acceptor', steps=[
         ('peer', [rq]), ('peer', [echo_rq(1), echo_rq(2), rel_rq]), ('fin',)])
+    c['A9_collision'] = dict(role='acceptor', steps=[
+        ('peer', [rq]), ('peer', [echo_rq(1)]), ('user', 'release'), ('peer', [rel_rq]),
+        ('peer', [rel_rp]), ('fin',)])
+    c['R4_collision'] = dict(role='requestor', steps=[
+        ('user', 'associate'), ('peer', [ac]), ('user', 'release'), ('peer', [rel_rq]),
+        ('peer', [rel_rp]), ('fin',)])
     c['R1_echo'] = dict(role='requestor', steps=[
         ('user', 'associate'), ('peer', [ac]), ('user', 'echo'),
         ('peer', [rc.enc_pdata([(1, 3, echo_rsp_cmd(1))])]), ('user', 'release'),
@@ -149,7 +155,15 @@ class ReactiveUser(object):
             else:
                 prov.send(lib.ac_for_indication(item, self.max_length))
         elif t == 5:
-            if not self.policy.get('no_release_rp'):
+            if self.policy.get('no_release_rp'):
+                return
+            if getattr(self.rig, 'user_released', False) and self.rig.role == 'acceptor':
+                self.pending_rp = True       # collision, acceptor side: answer after the confirm
+            else:
+                prov.send(lib.release_rp())
+        elif t == 6:
+            if getattr(self, 'pending_rp', False):
+                self.pending_rp = False
                 prov.send(lib.release_rp())
 
 
@@ -157,6 +171,7 @@ def user_action(rig, what):
     if what == 'associate':
         rig.user(lib.assoc_rq(contexts=CTXS, max_length=4096))
     elif what == 'release':
+        rig.user_released = True
         rig.user(lib.release_rq())
     elif what == 'abort':
         rig.user(lib.abort(0, 0))
